@@ -23,4 +23,19 @@ Offsets(t) == 0..Len(Templates[t])
 \* offset 0 is what editors write; the token ranges of everything after it depend on how it is handled)
 EdgeTexts(t) == << "@" \o Templates[t] \o Post, "@" \o Pre \o Templates[t] \o Post, "@\n" \o Templates[t] \o Post,
                    Pre \o Templates[t] \o Post \o "@", Pre \o Templates[t] \o "\n@" >>
+\* ---- GLUE sites: two tokens that are only kept apart by trivia and would be read as ONE other token (a long bracket, a
+\* comment, `..`, `...`, a longer number) if they touched.  The rules that delete trivia (remove_spaces, remove_comments) and
+\* the rules that rebuild a node without its tokens leave the separation to the generator: whatever the separator was in
+\* the source, the output must parse again.  <<left, right>>: the program is Pre \o left \o separator \o right \o Post.
+GlueSites == <<
+  <<"a = f[", "[[k]] ]">>, <<"a = f[", "[==[k]==] ]">>, <<"a = {[", "[[k]] ] = 1}">>, <<"f[", "[[k]] ] = 1">>, <<"f[", "[[k]] ] += 1">>,
+  <<"a = f[ [[k]]", "]">>, <<"a = f[ f[1]", "]">>, <<"a = f[ [[k]]", "] ]]">>,
+  <<"a = a -", "-a">>, <<"a = a -", "- -a">>, <<"a = -", "-a">>, <<"a = a -", "-1">>,
+  <<"a = a ..", ".5">>, <<"a = 1", ".. 2">>, <<"a = 1 ..", "2">>, <<"f(a ..", "...)">>, <<"a = a.", "b">>, <<"a = 1", ".b">>,
+  <<"a = a <", "= a">>, <<"a = a >", "= a">>, <<"a = a =", "= a">>, <<"a = a ~", "= a">>, <<"a = a /", "/ a">>, <<"a ..", "= 'x'">>,
+  <<"a = f", "[[x]]">>, <<"a = f", "'x'">>, <<"a = f", "{}">>, <<"a = a and", "a">>, <<"a = not", "a">>, <<"a = 1", "or a">>, <<"a = 0x1", "e">>,
+  <<"local b: {[", "[[k]] ]: number} = a">>, <<"f(a ::", ":any)">>, <<"a = f :", ": any">> >>
+GlueSeps == << " ", "\n", " --[[c]] ", "--[[c]]", " -- c\n", "\t", "" >>
+GlueText(i, j) == Pre \o GlueSites[i][1] \o GlueSeps[j] \o GlueSites[i][2] \o Post
+
 =============================================================================
